@@ -323,3 +323,20 @@ Definition get_relocation_tables (le is64 : bool) (em : Z) (tags : list (Z * Z))
            | None => Ok []
            end;
   Ok (t1 ++ t2 ++ t3 ++ t4)%list.
+
+(* ---------- which sections RelocationHandler sees: ELFFile.num_sections / iter_sections ---------- *)
+(* num_sections(): 0 without a table; e_shnum, or section 0's sh_size when e_shnum == 0 *)
+Definition num_sections (e_shoff e_shnum sh0_size : Z) : Z :=
+  if e_shoff =? 0 then 0 else if e_shnum =? 0 then sh0_size else e_shnum.
+
+(* iter_sections(): `for i in range(self.num_sections()): yield self.get_section(i)` over the section
+   header table [table] (all headers present at e_shoff, in order; a count reaching past the table
+   is not modelled: every header that is there is visited) *)
+Definition iter_sections (e_shoff e_shnum : Z) (table : list sec) : list sec :=
+  let n := num_sections e_shoff e_shnum (match table with s0 :: _ => s_size s0 | [] => 0 end) in
+  if zlen table <=? n then table else firstn (Z.to_nat n) table.
+
+(* _read_dwarf_section on a FILE: find_relocations_for_section walks self.elffile.iter_sections() *)
+Definition read_dwarf_section_file (le is64 : bool) (em : Z) (img : list Z) (e_shoff e_shnum : Z)
+           (table : list sec) (section : sec) (relocate_dwarf_sections : bool) : res (list Z) :=
+  read_dwarf_section le is64 em img (iter_sections e_shoff e_shnum table) section relocate_dwarf_sections.
